@@ -1,6 +1,7 @@
 package main
 
 import (
+	"regexp"
 	"fmt"
 	"sort"
 	"strings"
@@ -32,23 +33,69 @@ var rulePartition = map[string]string{"BeginRule": "beginRules", "BeginFileRule"
 func c02R1(c *Ctx) {
 	p := c.P
 	c.note("R1 rule-partition: in readRules, inside the loop over prog.Rules (slice order), under the fact rule.Kind == K the only effect is field_K = append(field_K, &copy of the rule); the map K -> field is the bijection Begin / BeginFile / End / EndFile / Pattern -> beginRules / beginFileRules / endRules / endFileRules / patternRules.")
-	rr := p.LangFunc("(*Evaluator).readRules")
+	// the partitioning function: the one that appends to the Evaluator's rule lists (discovered, so
+	// that it may be readRules or its body inlined into the constructor)
+	var rr *ssa.Function
+	evBase := ""
+	for _, fn := range p.Funcs {
+		if !p.InLang(fn) {
+			continue
+		}
+		allInstrs(fn, func(in ssa.Instruction) {
+			st, ok := in.(*ssa.Store)
+			if !ok {
+				return
+			}
+			fa, ok := st.Addr.(*ssa.FieldAddr)
+			if !ok {
+				return
+			}
+			if sf, ok := fieldOfAddr(fa); ok && sf.Is("Evaluator", "patternRules") && strings.HasPrefix(p.Render(st.Val), "append(") {
+				rr = fn
+				evBase = strings.TrimPrefix(p.Render(fa.X), "&")
+			}
+		})
+	}
 	if rr == nil {
-		c.undecided("R1", "readRules", "", "anchor not found")
+		c.undecided("R1", "readRules", "", "no function appends to Evaluator.patternRules")
 		return
 	}
-	ms := p.maySetOf(rr, "e.prog.Rules[i@e.prog.Rules].Kind", sortedKeysOf(rulePartition))
+	// the location whose value is compared with the rule kinds, and the ranged rule list
+	loc, list := "", ""
+	for _, b := range rr.Blocks {
+		for _, rl := range FactsOf(rr).At(b).Rels() {
+			if _, isC := rl.y.(*ssa.Const); isC {
+				if name, _ := enumOf(p, rl.x); name == "RuleKind" {
+					loc = p.Render(rl.x)
+				}
+			}
+		}
+	}
+	idxRe := regexp.MustCompile(`\[i@[^\]]*\]`)
+	if i := strings.Index(loc, "[i@"); i > 0 {
+		list = strings.ReplaceAll(loc[:i], evBase+".", "e.")
+	}
+	if loc == "" || list == "" {
+		c.undecided("R1", "rule-kind-test", p.Pos(rr.Pos()), "no test of a ranged rule's Kind against the RuleKind constants found in "+shortName(rr))
+		return
+	}
+	norm := func(x string) string {
+		x = strings.ReplaceAll(x, evBase+".", "e.")
+		x = idxRe.ReplaceAllString(x, "[i]")
+		return strings.ReplaceAll(x, list, "RULES")
+	}
+	ms := p.maySetOf(rr, loc, sortedKeysOf(rulePartition))
 	got := map[string]map[string]bool{}
 	allInstrs(rr, func(in ssa.Instruction) {
 		st, ok := in.(*ssa.Store)
-		if !ok || isLocalAddr(st.Addr) {
+		if !ok || isLocalAddr(st.Addr) && !strings.Contains(p.Render(st.Addr), "Rules") {
 			return
 		}
 		val := p.Render(st.Val)
 		if !strings.HasPrefix(val, "append(") {
 			return
 		}
-		eff := strings.TrimPrefix(p.Render(st.Addr), "&") + " = " + val
+		eff := norm(strings.TrimPrefix(p.Render(st.Addr), "&") + " = " + val)
 		for _, k := range ms.At(st.Block()) {
 			if got[k] == nil {
 				got[k] = map[string]bool{}
@@ -58,11 +105,11 @@ func c02R1(c *Ctx) {
 	})
 	for _, k := range sortedKeysOf(rulePartition) {
 		f := rulePartition[k]
-		want := "e." + f + " = append(e." + f + ", [&e.prog.Rules[i@e.prog.Rules]][:])"
+		want := "e." + f + " = append(e." + f + ", [&RULES[i]][:])"
 		c.check(len(got[k]) == 1 && got[k][want], "R1", "partition "+k, p.Pos(rr.Pos()), k+" -> "+f+" (appended in source order)", fmt.Sprintf("rules of kind %s are handled by {%s}; documented: appended to %s", k, keysOf(got[k]), f))
 	}
-	loops := rangeLoops(rr, func(v ssa.Value) bool { return p.Render(v) == "e.prog.Rules" })
-	c.check(len(loops) == 1, "R1", "partition-loop", p.Pos(rr.Pos()), "one pass over prog.Rules in slice order", fmt.Sprintf("%d loops over prog.Rules", len(loops)))
+	loops := rangeLoops(rr, func(v ssa.Value) bool { return strings.ReplaceAll(p.Render(v), evBase+".", "e.") == list })
+	c.check(len(loops) == 1, "R1", "partition-loop", p.Pos(rr.Pos()), "one pass over prog.Rules in slice order", fmt.Sprintf("%d loops over the program's rule list", len(loops)))
 	// the parser appends rules in source order
 	if pa := p.LangFunc("(*Parser).Parse"); pa != nil {
 		r := p.Render(effectiveResults(returnsOf(pa)[len(returnsOf(pa))-1])[0])
